@@ -45,6 +45,8 @@ type tcProfile struct {
 	Reimport  int  // weight of "restart a chain from its exported genesis" (C16)
 	Replicas  bool // run every block on independent replicas too (C18)
 	Plans     bool // executor-change plans on L2 (several validators leave in one block)
+	WWithdraw int  // weight of user withdrawals (default 8)
+	WPropose  int  // weight of proposals (default 4); lower = larger trees
 }
 
 type depEvent struct {
@@ -741,6 +743,19 @@ func (tc *twoChain) actClaim(max int) int {
 				Amount: sdk.Coin{Denom: wd.BaseDenom, Amount: math.NewIntFromBigInt(wd.Amount)}, Version: []byte{o.C.Version}, StorageRoot: append([]byte{}, o.C.Storage[:]...),
 				LastBlockHash: append([]byte{}, o.C.BlockHash[:]...), WithdrawalProofs: hashes(o.C.Tree.Proof(pos))}
 			tc.claimSent[wi]++
+			switch n := len(o.Leaves); {
+			case n >= 17:
+				tc.r.Probe("claim.tree-size>=17")
+				fallthrough
+			case n >= 9:
+				tc.r.Probe("claim.tree-size>=9")
+				fallthrough
+			case n >= 3:
+				tc.r.Probe("claim.tree-size>=3")
+			}
+			if len(o.Leaves)%2 == 1 && pos == len(o.Leaves)-1 {
+				tc.r.Probe("claim.last-leaf-of-odd-tree")
+			}
 			tc.r.Step("act.claim", "withdrawal %d against output %d (leaf %d/%d)", wd.Seq, idx, pos, len(o.Leaves))
 			tc.send(1, "claimer", []sdk.Msg{msg}, "claim", fmt.Sprintf("bridge=1 out=%d seq=%d %s%s to=%s proof=%d", idx, wd.Seq, wd.Amount, wd.BaseDenom, short(wd.To), len(msg.WithdrawalProofs)))
 			sent++
@@ -837,6 +852,12 @@ func (tc *twoChain) actAdminL2() {
 func (tc *twoChain) step() *core.Violation {
 	r := tc.r
 	wts := []int{10, 8, 4, 2, 10, 4, tc.p.Challenge, 5, 9, 9, 0, 0, 0, tc.p.Reimport}
+	if tc.p.WWithdraw > 0 {
+		wts[1] = tc.p.WWithdraw
+	}
+	if tc.p.WPropose > 0 {
+		wts[5] = tc.p.WPropose
+	}
 	if tc.p.Faults {
 		wts[10] = 2 // partition / heal
 	}
